@@ -65,7 +65,7 @@ def derive(case: dict) -> dict:
         P = [[F(x) for x in row] for row in case["P"]]
         ms = case["ms"]
         xs = [fr(x) for x in case["xstar"]]
-        z0 = [F(z) for z in case["z0"]]
+        z0 = [fr(z) for z in case["z0"]]
         Pinv = inverse(P)
         n = len(ms)
         D = [[F(-ms[i]) if i == j else F(0) for j in range(n)] for i in range(n)]
@@ -148,7 +148,19 @@ def real_case(case: dict) -> dict:
     out = {}
     with quiet():
         sim = Simulator(model, y0=dict(zip(names, y0)) if user else None)
-        res = sim.simulate_to_steady_state(tolerance=tol, rel_norm=case["rel"]).get_result()
+        prior = case.get("prior")
+        if prior:  # earlier successful calls on the SAME simulator
+            if prior[0] == "simulate":
+                sim.simulate(prior[1], steps=prior[2])
+            else:
+                sim.simulate_time_course(np.linspace(0, prior[1], prior[2] + 1))
+        sim.simulate_to_steady_state(tolerance=tol, rel_norm=case["rel"])
+        if case.get("post"):  # a later call must not wash an error away
+            try:
+                sim.simulate(case["post"], steps=2)
+            except ValueError:  # only reachable when the search wrongly succeeded (end time before the stored one)
+                pass
+        res = sim.get_result()
         val = res.value
         if type(val).__name__ == "Simulation":
             v = val.variables
@@ -236,6 +248,11 @@ def lenient(case, dv):
     return float(dv["tol"]) < 2 * noise_of(case, dv)
 
 
+def prior_rows(case):
+    p = case.get("prior")
+    return 0 if not p else p[2] + 1
+
+
 def canon_real(case, dv, r, n_exact, ratios=()):
     if r["outcome"] != "steady":
         o = {"outcome": r["outcome"]}
@@ -296,7 +313,7 @@ def spec(case, dv, n_exact):
         if case.get("scan"):
             o["scan"] = ["nan", "nan"]
         return o
-    o = {"outcome": "steady", "n": n_exact, "rows": 1, "close": True, "balanced": True}
+    o = {"outcome": "steady", "n": n_exact, "rows": prior_rows(case) + 1, "close": True, "balanced": True}
     if case.get("scan"):
         o["scan"] = ["state", "state"]
     return o
@@ -305,7 +322,7 @@ def spec(case, dv, n_exact):
 def model_request(case, dv):
     q = lambda x: str(F(x))  # noqa: E731
     return {"op": "c15", "copies": "gen", "C": [[q(x) for x in row] for row in dv["C"]], "d": [q(x) for x in dv["d"]],
-            "y0": [q(x) for x in dv["y0"]], "tol": q(dv["tol"]), "rel": case["rel"]}
+            "y0": [q(x) for x in dv["y0"]], "tol": q(dv["tol"]), "rel": case["rel"], "prior": prior_rows(case)}
 
 
 # ----------------------------------------------------------------------------- generator
@@ -320,9 +337,9 @@ def gen_stable(rng):
         z0 = [rng.choice([-3, -2, -1, 1, 2, 4, 6]) for _ in range(n)]
         case = {"kind": "stable", "P": P, "ms": ms, "xstar": xstar, "z0": z0, "tol_exp": rng.randint(3, 9),
                 "rel": rng.random() < 0.4, "y0mode": rng.choice(["default", "user"])}
-        dv = derive(case)
-        if all(y != 0 for y in dv["y0"]):
-            return case
+        if rng.random() < 0.2:  # start every variable at exactly 0 (empty network filling up)
+            case["z0"] = [str(-v) for v in matvec(inverse([[F(x) for x in row] for row in P]), [fr(x) for x in xstar])]
+        return case
 
 
 def gen_case(rng):
@@ -332,7 +349,7 @@ def gen_case(rng):
     elif r < 0.84:
         n = rng.choice([1, 2])
         c = {"kind": "accumulate", "b": [rng.choice([1, 2, 5]) for _ in range(n)],
-             "y0": [rng.choice([1, 2, 10]) for _ in range(n)]}
+             "y0": [rng.choice([0, 0, 1, 2, 10]) for _ in range(n)]}
     elif r < 0.92:
         c = {"kind": "grow", "y0": [rng.choice([1, 2])]}
     else:
@@ -340,10 +357,23 @@ def gen_case(rng):
     if c["kind"] != "stable":
         c.update(tol_exp=rng.randint(3, 9), rel=rng.random() < 0.4, y0mode=rng.choice(["default", "user"]))
     c["scan"] = c["tol_exp"] == 6 and rng.random() < 0.5  # scan.steady_state only offers the default tolerance
+    # multi-step use of ONE simulator: results of an earlier call are already stored / a later call follows
+    r = rng.random()
+    if r < 0.2:
+        c["prior"] = [rng.choice(["simulate", "time_course"]), rng.choice([1, 5, 20]), rng.choice([1, 3, 6])]
+    elif r < 0.3 and c["kind"] != "stable":
+        c["post"] = rng.choice([1, 5])
     return c
 
 
 FIXED = [
+    # sequences on one simulator: a time course first, then a search that cannot succeed; and the reverse order
+    {"kind": "accumulate", "b": [1], "y0": [1], "tol_exp": 6, "rel": False, "y0mode": "default", "scan": False,
+     "prior": ["simulate", 5, 3]},
+    {"kind": "accumulate", "b": [1], "y0": [0], "tol_exp": 6, "rel": True, "y0mode": "default", "scan": False,
+     "post": 5},
+    {"kind": "stable", "P": [[1, 0], [1, 1]], "ms": [1, 2], "xstar": ["2", "1"], "z0": ["-2", "1"], "tol_exp": 4,
+     "rel": True, "y0mode": "default", "scan": False},
     # the round-0 witnesses: dx/dt = 1 from 1, and a slow relaxation 5 -> 1
     {"kind": "accumulate", "b": [1], "y0": [1], "tol_exp": 6, "rel": False, "y0mode": "default", "scan": True},
     {"kind": "stable", "P": [[1]], "ms": [1], "xstar": ["1"], "z0": [4], "tol_exp": 6, "rel": False,
@@ -355,7 +385,9 @@ FIXED = [
 
 def shape_of(case):
     n = len(case.get("ms") or case.get("b") or case["y0"])
-    return f"{case['kind']}:dim{n}:tol1e-{case['tol_exp']}:{'rel' if case['rel'] else 'abs'}:{case['y0mode']}"
+    seq = ":after-" + case["prior"][0] if case.get("prior") else (":then-simulate" if case.get("post") else "")
+    zero = ":from0" if any(F(y) == 0 for y in derive(case)["y0"]) else ""
+    return f"{case['kind']}:dim{n}:tol1e-{case['tol_exp']}:{'rel' if case['rel'] else 'abs'}:{case['y0mode']}{zero}{seq}"
 
 
 # ----------------------------------------------------------------------------- verdicts
@@ -388,6 +420,96 @@ def evaluate(ctx, cases):
     return Rs, Ms
 
 
+# ----------------------------------------------------------------------------- scans: rows stay with THEIR parameters
+def relax(m, b, xs, x):
+    return b + LN2_100 * m * (xs - x)
+
+
+def scan_model(xs, x0):
+    from mxlpy import Model
+    return (Model().add_variable("x", x0).add_parameters({"m": 1.0, "b": 0.0, "xs": xs})
+            .add_reaction("v", relax, args=["m", "b", "xs", "x"], stoichiometry={"x": 1}))
+
+
+def gen_scan_case(rng):
+    """rows (m, b): m > 0, b = 0 relaxes to xs by 2^-m per step; m = 0, b > 0 accumulates for ever.  Index labels as
+    users produce them: default, glued frames (repeated labels), strings, a non-unique column as index."""
+    n = rng.randint(2, 6)
+    rows = [[0, rng.choice([1, 2])] if rng.random() < 0.3 else [rng.choice([1, 2, 3, 4, 6]), 0] for _ in range(n)]
+    style = rng.choice(["range", "concat", "concat", "strings", "constant", "shuffled"])
+    if style == "range":
+        labels = list(range(n))
+    elif style == "concat":
+        h = rng.randint(1, n - 1)
+        labels = list(range(h)) + list(range(n - h))
+    elif style == "strings":
+        labels = [rng.choice(["a", "b", "rep 1", "rep_1", "x*2"]) for _ in range(n)]
+    elif style == "constant":
+        labels = ["run"] * n
+    else:
+        labels = rng.sample(range(n), n)
+    return {"scan_rows": rows, "labels": labels, "xs": rng.choice([2, 3, 5]), "x0": rng.choice([1, 4]),
+            "rel": rng.random() < 0.3, "parallel": rng.random() < 0.25}
+
+
+def real_scan_case(c):
+    import numpy as np
+    import pandas as pd
+    from mxlpy import scan
+    to_scan = pd.DataFrame(c["scan_rows"], columns=["m", "b"], index=c["labels"], dtype=float)
+    with quiet():
+        sc = scan.steady_state(scan_model(float(c["xs"]), float(c["x0"])), to_scan=to_scan, parallel=c["parallel"],
+                               rel_norm=c["rel"])
+        v = sc.variables
+    return {"rows": [None if bool(np.isnan(x)) else float(x) for x in v["x"].to_numpy()],
+            "index": [list(map(float, t)) if isinstance(t, tuple) else float(t) for t in v.index]}
+
+
+def judge_scan(ctx, c, r, ms):
+    ctx.count(c, f"scan:{len(c['scan_rows'])}rows:labels-{'unique' if len(set(map(str, c['labels']))) == len(c['labels']) else 'repeated'}")
+    tol = 1e-6
+    S, M = [], []
+    for i, (m, b) in enumerate(c["scan_rows"]):
+        S.append("nan" if m == 0 else "close")
+        if ms is not None:
+            M.append("nan" if ms[i]["row"] is None else "close")
+    R = []
+    for (m, b), x in zip(c["scan_rows"], r["rows"]):
+        if x is None:
+            R.append("nan")
+        else:
+            bd = 2 * tol * (max(abs(x), 1.0) if c["rel"] else 1.0) + 2e-5 * c["xs"]
+            R.append("close" if m != 0 and abs(x - c["xs"]) <= bd else f"other({x:.6g})")
+    ctx.judge(c, {"rows": R, "index": r["index"]}, {"rows": S, "index": [[float(a), float(b)] for a, b in c["scan_rows"]]},
+              None if ms is None else {"rows": M, "index": [[float(a), float(b)] for a, b in c["scan_rows"]]},
+              what="scan.steady_state: row i holds the steady state (or NaN) of row i's parameters")
+
+
+def scan_requests(c):
+    q = lambda x: str(F(x))  # noqa: E731
+    out = []
+    for m, b in c["scan_rows"]:
+        if m == 0:
+            C, d = [["1"]], [q(100 * b)]
+        else:
+            C, d = [[q(F(1, 2 ** m))]], [q((1 - F(1, 2 ** m)) * c["xs"])]
+        out.append({"op": "c15", "copies": "gen", "C": C, "d": d, "y0": [q(c["x0"])], "tol": "1/1000000", "rel": c["rel"]})
+    return out
+
+
+def run_scans(ctx, cases):
+    import mxlpy  # noqa: F401
+    with cf.ProcessPoolExecutor(max_workers=min(8, os.cpu_count() or 4)) as ex:
+        Rs = list(ex.map(real_scan_case, cases))
+    reqs = [scan_requests(c) for c in cases]
+    flat = driver.call_batch([q for rq in reqs for q in rq]) if ctx.driver_ok else None
+    pos = 0
+    for c, r, rq in zip(cases, Rs, reqs):
+        ms = None if flat is None else flat[pos:pos + len(rq)]
+        pos += len(rq)
+        judge_scan(ctx, c, r, ms)
+
+
 def setup(ctx):
     from translate import c15 as tr
     ctx.translate(tr.generate)
@@ -414,12 +536,16 @@ def run(ctx):
     Rs, Ms = evaluate(ctx, cases)
     for c, r, m in zip(cases, Rs, Ms):
         judge_case(ctx, c, r, m)
+    run_scans(ctx, [gen_scan_case(ctx.rng) for _ in range(ctx.n(16, 300))])
     if not ctx.proof_ok or ctx.drift:
         ctx.notes.append("proof/correspondence broken: the run above is the failing-input search")
 
 
 def replay(ctx, rp):
     case = rp["case"]
+    if "scan_rows" in case:
+        run_scans(ctx, [case])
+        return
     Rs, Ms = evaluate(ctx, [case])
     print("R =", Rs[0], "\nM =", Ms[0])
     judge_case(ctx, case, Rs[0], Ms[0])
